@@ -1,9 +1,46 @@
 //! E3 xcdrcheck: bounded-exhaustive type x value enumeration for the XCDR / key-hash / discovery-data properties.
 use vutil::{Args, Report};
 
+mod ast;
+mod bridge;
+mod disc;
+mod evol;
+mod keys;
+mod refcodec;
+mod xcdr;
+
 fn main() {
     let args = Args::parse();
     let mut rep = Report::new();
-    rep.machinery_error = Some(format!("xcdrcheck: check {} not implemented yet", args.id));
+    if let Some(path) = &args.replay {
+        let v = vutil::read_replay(path);
+        let id = if args.id.is_empty() { v["check"].as_str().unwrap_or("").to_string() } else { args.id.clone() };
+        let ok = match id.as_str() {
+            "C09" => xcdr::replay_c09(&v),
+            "C10" => xcdr::replay_c10(&v),
+            "C11" | "C12" => keys::replay(&v),
+            "C13" => disc::replay(&v),
+            "C39" => evol::replay(&v),
+            _ => {
+                eprintln!("no replay for {}", id);
+                std::process::exit(2)
+            }
+        };
+        println!("{}", if ok { "PASS" } else { "FAIL" });
+        std::process::exit(if ok { 0 } else { 1 });
+    }
+    let t0 = std::time::Instant::now();
+    match args.id.as_str() {
+        "C09" => xcdr::run_c09(&args, &mut rep),
+        "C10" => xcdr::run_c10(&args, &mut rep),
+        "C11" => keys::run_c11(&args, &mut rep),
+        "C12" => keys::run_c12(&args, &mut rep),
+        "C13" => disc::run(&args, &mut rep),
+        "C39" => evol::run(&args, &mut rep),
+        other => {
+            rep.machinery_error = Some(format!("xcdrcheck: unknown check {other}"));
+        }
+    }
+    rep.set("wall_ms", vutil::serde_json::json!(t0.elapsed().as_millis() as u64));
     rep.write(&args);
 }
